@@ -325,6 +325,13 @@ impl Ast {
         weak_ptr
     }
 
+    /// Removes the elements at `index` and after it from this AST, along with their entries in the
+    /// [lookup table](Ast::lookup_table). This is used to discard the elements of a file that failed to parse.
+    pub(crate) fn remove_elements_from(&mut self, index: usize) {
+        self.lookup_table.retain(|_, element_index| *element_index < index);
+        self.elements.truncate(index);
+    }
+
     /// Moves a Slice element into this AST, and returns a [WeakPtr] to it, after adding an entry for the element into
     /// this AST's [lookup table](Ast::lookup_table), allowing it to be retrieved by identifier.
     pub(crate) fn add_named_element<T: NamedSymbol>(&mut self, element: OwnedPtr<T>) -> WeakPtr<T>
